@@ -12,8 +12,11 @@
 (*                      registered                                         *)
 (*  anyrt {type, seed}  anypb.New of a random message of a registered type *)
 (*                      and back through UnmarshalTo / UnmarshalNew        *)
+(*  anybox {T, tn, steps} one whole history of the AnyBox machine (an Any  *)
+(*                      and a destination of the registered type number T, *)
+(*                      named tn): the observation after every step        *)
 (***************************************************************************)
-EXTENDS StructVal
+EXTENDS AnyBox
 
 Expect(e) ==
   CASE e.op = "newvalue" ->
@@ -30,4 +33,5 @@ Expect(e) ==
          LET url == AnyUrlOf(e.type) IN
          [url |-> url, name |-> MessageName(url), is |-> MessageIs(url, e.type), isother |-> MessageIs(url, e.other),
           to |-> TRUE, toother |-> FALSE, new |-> TRUE]
+    [] e.op = "anybox" -> [tn |-> BoxTypes[e.T], obs |-> BoxRun(e.T, e.steps)]
 =============================================================================
